@@ -3,6 +3,8 @@ import Sonic.Spec.Shortest
 import Sonic.Proofs.FtoaTables
 import Sonic.Proofs.FtoaChk
 import Sonic.Proofs.FtoaMain
+import Sonic.Proofs.FtoaSchubMain
+import Sonic.Proofs.FtoaRne
 
 /-!
 # C07 — finite doubles print as the shortest decimal that reads back to the same double
@@ -19,8 +21,16 @@ What is proved about the tables (`C07_tables`, `C07_exponents`): every row of th
 the three fixed-point logarithm formulas, by kernel-checked enumeration.
 What is proved about the certificate (`C07_checker_sound`): `chk = true` implies round trip, minimal length and
 closest, for all decimals.
-What is OPEN: that `F64ToDecimal` always returns a decimal satisfying `chk` (see the end of the file); this is
-evaluated per input by the driver (`chk=` column).
+What is proved about `F64ToDecimal` (`C07_schubfach`, `C07_shortest`): for every finite non-zero double the decimal
+it returns satisfies `chk`, hence round-trips, has the minimal number of digits and is the closest among the
+shortest (Schubfach is correct as implemented, 128-bit table and `y0 > 1` sticky rule included).
+What is proved about the link to the reference reader (`C07_roundTrips_iff_rne`, `C07_RoundTrips_iff_rne`,
+`C07_roundTrips_iff_rne_signed`, `C07_chk_reparse`, `C07_chk_reparse_signed`): for every finite non-zero bit
+pattern the rounding interval of this file is *exactly* the set of decimals that the executable reference rounding
+`Spec.Rne.round` (the oracle of C04) maps to that bit pattern; hence `chk = true` implies that re-parsing the
+printed decimal with a correctly rounding reader gives back the same bits.
+Nothing of the C07 statement remains open in the model; what is *trusted* is the tie of the model to the compiled code
+(differential correspondence) and, for `parse(print(x)) = x` through the real parser, property C04.
 -/
 
 namespace Sonic.Props.C07
@@ -91,6 +101,69 @@ theorem C07_checker_sound (c : Nat) (q : Int) (sig : Nat) (exp : Int) (hv : Vali
 theorem C07_inInterval (c : Nat) (q : Int) (sig : Nat) (exp : Int) (hv : ValidCQ c q) :
     inInterval c q sig exp = true ↔ RoundTrips c q sig exp :=
   inInterval_iff c q sig exp hv.1
+
+/-! ## the rounding interval is the preimage of the bit pattern under the reference rounding `Spec.Rne.round` -/
+
+/-- the `(c, q)` of every finite non-zero bit pattern is valid (sign bit ignored) -/
+theorem C07_validCQ (bits : Nat) (hfin : bits / 2 ^ 52 % 2 ^ 11 ≠ 2047)
+    (hnz : bits % 2 ^ 63 ≠ 0) : ValidCQ (cqOfBits bits).1 (cqOfBits bits).2 := by
+  rw [← Sonic.Proofs.FtoaRne.cqOfBits_low]
+  exact (Sonic.Proofs.FtoaRne.cq_of_bits (bits % 2 ^ 63) (Nat.mod_lt _ (by decide)) (by omega) hnz).1
+
+/-- **Interval = preimage of `Rne.round`.**  For every finite (`exponent field ≠ 0x7FF`) non-zero non-negative bit
+    pattern and every decimal `sig·10^exp` with `sig > 0` (no bound on `sig` or `exp`): the decimal lies in the
+    rounding interval of the double — end points included iff the significand is even, the lower end point only a
+    quarter ulp away at the start of a binade, half the smallest subnormal excluded for `bits = 1`, the upper end point
+    of `DBL_MAX` excluded — iff the exact reference rounding of the decimal (`Spec.Rne.round`, the oracle of C04,
+    including its clamps for exponents beyond ±400) returns exactly `bits`. -/
+theorem C07_roundTrips_iff_rne (bits : Nat) (h : bits < 2 ^ 63) (hfin : bits / 2 ^ 52 % 2 ^ 11 ≠ 2047)
+    (hnz : bits ≠ 0) (sig : Nat) (exp : Int) (hs : 0 < sig) :
+    inInterval (cqOfBits bits).1 (cqOfBits bits).2 sig exp = true ↔ Rne.round false sig exp = some bits :=
+  Sonic.Proofs.FtoaRne.inInterval_iff_round bits h hfin hnz sig exp hs
+
+/-- the same for the Prop-level statement over exact rationals -/
+theorem C07_RoundTrips_iff_rne (bits : Nat) (h : bits < 2 ^ 63) (hfin : bits / 2 ^ 52 % 2 ^ 11 ≠ 2047)
+    (hnz : bits ≠ 0) (sig : Nat) (exp : Int) (hs : 0 < sig) :
+    RoundTrips (cqOfBits bits).1 (cqOfBits bits).2 sig exp ↔ Rne.round false sig exp = some bits := by
+  rw [← C07_inInterval _ _ _ _ (C07_validCQ bits hfin (by omega))]
+  exact C07_roundTrips_iff_rne bits h hfin hnz sig exp hs
+
+/-- the same for all 64-bit patterns: the sign of the decimal is the sign bit -/
+theorem C07_roundTrips_iff_rne_signed (bits : Nat) (h : bits < 2 ^ 64) (hfin : bits / 2 ^ 52 % 2 ^ 11 ≠ 2047)
+    (hnz : bits % 2 ^ 63 ≠ 0) (sig : Nat) (exp : Int) (hs : 0 < sig) :
+    inInterval (cqOfBits bits).1 (cqOfBits bits).2 sig exp = true ↔
+      Rne.round (negOf bits) sig exp = some bits := by
+  have key := Sonic.Proofs.FtoaRne.inInterval_iff_round_signed (negOf bits) (bits % 2 ^ 63)
+    (Nat.mod_lt _ (by decide)) (by omega) hnz sig exp hs
+  rw [Sonic.Proofs.FtoaRne.cqOfBits_low] at key
+  have hb : bits % 2 ^ 63 + (if negOf bits = true then 2 ^ 63 else 0) = bits := by
+    unfold negOf
+    by_cases hn : bits / 2 ^ 63 ≠ 0
+    · rw [if_pos (decide_eq_true hn)]; omega
+    · rw [if_neg (by rw [decide_eq_false hn]; decide)]; omega
+  rw [hb] at key
+  exact key
+
+/-- **Certificate ⇒ re-parse.**  If the certificate holds for the decimal `(sig, exp)` and the `(c, q)` of a finite
+    non-zero non-negative bit pattern, a correctly rounding reader (`Spec.Rne.round`, to which C04 ties the parser)
+    returns exactly `bits` for that decimal. -/
+theorem C07_chk_reparse (bits : Nat) (h : bits < 2 ^ 63) (hfin : bits / 2 ^ 52 % 2 ^ 11 ≠ 2047)
+    (hnz : bits ≠ 0) (sig : Nat) (exp : Int)
+    (hchk : chk (cqOfBits bits).1 (cqOfBits bits).2 sig exp = true) :
+    Rne.round false sig exp = some bits := by
+  have hv := C07_validCQ bits hfin (by omega)
+  have hs : 0 < sig := (chk_parts _ _ _ _ hchk).1
+  exact (C07_RoundTrips_iff_rne bits h hfin hnz sig exp hs).1 (C07_checker_sound _ _ _ _ hv hchk).1
+
+/-- the same for all 64-bit patterns (the printed sign is the sign bit, see `C07_decimal_path`) -/
+theorem C07_chk_reparse_signed (bits : Nat) (h : bits < 2 ^ 64) (hfin : bits / 2 ^ 52 % 2 ^ 11 ≠ 2047)
+    (hnz : bits % 2 ^ 63 ≠ 0) (sig : Nat) (exp : Int)
+    (hchk : chk (cqOfBits bits).1 (cqOfBits bits).2 sig exp = true) :
+    Rne.round (negOf bits) sig exp = some bits := by
+  have hv := C07_validCQ bits hfin hnz
+  have hs : 0 < sig := (chk_parts _ _ _ _ hchk).1
+  exact (C07_roundTrips_iff_rne_signed bits h hfin hnz sig exp hs).1
+    ((C07_inInterval _ _ _ _ hv).2 (C07_checker_sound _ _ _ _ hv hchk).1)
 
 /-! ## zero, infinities, NaN -/
 
@@ -285,31 +358,111 @@ example : parseDecText [48, 49] = none ∧ parseDecText [49, 46] = none ∧ pars
 example : pow10CeilSig[292]? = some (2 ^ 63, 0) ∧ pow10CeilSig[0]? = some (0xFF77B1FCBEBCDC4F, 0x25E8E89C13BB0F7B) := by
   decide +kernel
 
-/-!
-## OPEN
+/-! ## Schubfach: the decimal chosen by `F64ToDecimal` is the shortest, closest one -/
 
-```
+-- the link to `Spec.Rne.round`: both sides true / both sides false, by kernel evaluation
+-- 0.1 (inside), 0.2 (outside)
+example : inInterval (cqOfBits 4591870180066957722).1 (cqOfBits 4591870180066957722).2 1 (-1) = true ∧
+    Rne.round false 1 (-1) = some 4591870180066957722 := by decide +kernel
+example : inInterval (cqOfBits 4591870180066957722).1 (cqOfBits 4591870180066957722).2 2 (-1) = false ∧
+    Rne.round false 2 (-1) ≠ some 4591870180066957722 := by decide +kernel
+-- exact end point `2^53 + 1` between `2^53` (even: included) and `2^53 + 2` (odd: excluded)
+example : cqOfBits 4845873199050653696 = (2 ^ 52, 1) ∧ cqOfBits 4845873199050653697 = (2 ^ 52 + 1, 1) ∧
+    inInterval (2 ^ 52) 1 9007199254740993 0 = true ∧ inInterval (2 ^ 52 + 1) 1 9007199254740993 0 = false ∧
+    Rne.round false 9007199254740993 0 = some 4845873199050653696 := by decide +kernel
+-- the irregular lower end point of 1.0 (start of a binade, `c = 2^52` even: included):
+-- `1 - 2^-54 = (2^54 - 1)·5^54·10^-54` reads back as 1.0, the next decimal below it reads back as the predecessor
+example : cqOfBits 4607182418800017408 = (2 ^ 52, -52) ∧
+    inInterval (2 ^ 52) (-52) ((2 ^ 54 - 1) * 5 ^ 54) (-54) = true ∧
+    Rne.round false ((2 ^ 54 - 1) * 5 ^ 54) (-54) = some 4607182418800017408 ∧
+    inInterval (2 ^ 52) (-52) ((2 ^ 54 - 1) * 5 ^ 54 - 1) (-54) = false ∧
+    Rne.round false ((2 ^ 54 - 1) * 5 ^ 54 - 1) (-54) = some 4607182418800017407 := by decide +kernel
+-- half the smallest subnormal is excluded (ties to even = 0); the upper end point of DBL_MAX rounds to infinity
+example : inInterval 1 (-1074) (5 ^ 1075) (-1075) = false ∧ Rne.round false (5 ^ 1075) (-1075) = some 0 ∧
+    inInterval 1 (-1074) (5 ^ 1075 + 1) (-1075) = true ∧ Rne.round false (5 ^ 1075 + 1) (-1075) = some 1 := by
+  decide +kernel
+example : inInterval 9007199254740991 971 ((2 ^ 54 - 1) * 2 ^ 970) 0 = false ∧
+    Rne.round false ((2 ^ 54 - 1) * 2 ^ 970) 0 = none ∧
+    inInterval 9007199254740991 971 ((2 ^ 54 - 1) * 2 ^ 970 - 1) 0 = true ∧
+    Rne.round false ((2 ^ 54 - 1) * 2 ^ 970 - 1) 0 = some 9218868437227405311 := by decide +kernel
+-- exponents beyond the clamps of `Rne.round`
+example : inInterval 1 (-1074) 1 (-500) = false ∧ Rne.round false 1 (-500) = some 0 ∧
+    inInterval 9007199254740991 971 1 500 = false ∧ Rne.round false 1 500 = none ∧
+    inInterval 1 (-1074) (5 * 10 ^ 500) (-824) = true ∧ Rne.round false (5 * 10 ^ 500) (-824) = some 1 := by
+  decide +kernel
+-- the certificate gives the re-parse (instances of `C07_chk_reparse` / `_signed`): 0.1, 5e-324, DBL_MAX, -1.5e-7
+example : Rne.round false 1 (-1) = some 4591870180066957722 :=
+  C07_chk_reparse 4591870180066957722 (by decide) (by decide) (by decide) 1 (-1) (by decide +kernel)
+example : Rne.round false 5 (-324) = some 1 :=
+  C07_chk_reparse 1 (by decide) (by decide) (by decide) 5 (-324) (by decide +kernel)
+example : Rne.round false 17976931348623157 292 = some 9218868437227405311 :=
+  C07_chk_reparse 9218868437227405311 (by decide) (by decide) (by decide) _ _ (by decide +kernel)
+example : Rne.round true 15 (-8) = some 13728134904377344886 :=
+  C07_chk_reparse_signed 13728134904377344886 (by decide) (by decide) (by decide) 15 (-8) (by decide +kernel)
+
+
+set_option linter.unusedVariables false in
+/-- **Schubfach is correct as implemented.**  For every finite non-zero double that is not printed by the integer
+    fast path (the statement in fact holds for those too: `hnf` is not used), the decimal `(sig, exp)` returned by
+    `F64ToDecimal` — after moving the trailing zeros of `sig` into the exponent, as the printed text does —
+    satisfies the certificate `chk`.
+
+    Proof (files `Sonic/Proofs/FtoaNT*.lean`, `FtoaRO`, `FtoaBridge`, `FtoaAlg`, `FtoaChkC`, `FtoaSchub`,
+    `FtoaSchubMain`):
+    * number theory, per binary exponent `q` (2046 kernel-checked certificates: a small reduced denominator, or a
+      lattice basis made of the best approximations from above and below): for `A/B = 2^q·10^(-k)` and every
+      multiplier `m ≤ 2^54 + 1`, `m·A mod B` is `0` or at least `B/2^64` away from `0` and `B/2^69` away from `B`;
+    * hence, with the table entry `g = ⌈10^(-k)·2^(-r)⌉` (`C07_tables`), `RoundToOdd(g, 2m·2^h)` is *exactly*
+      `2·⌊m·A/B⌋ + [B ∤ m·A]` — the round-to-odd of the exact scaled value — for the three multipliers
+      `2c-1, 2c, 2c+1` (the smallest margin over all doubles is `frac = 1.37·2^-64` at `q = 164`,
+      `c = 5592117679628511`, which the `y0 > 1` rule just accepts);
+    * so every test of the algorithm is a comparison of exact rationals, and the branch analysis of the paper
+      (`R_{k+1}`: the unique multiple of `10^(k+1)` in the rounding interval; `R_k`: `s` or `s+1`, the closer one,
+      ties to even) yields the conditions `chk` encodes;
+    * the 2045 doubles at the start of a binade (`c = 2^52`, asymmetric interval) and the subnormals with `c < 20`
+      are evaluated by the kernel. -/
 theorem C07_schubfach (bits : Nat) (h : bits < 2 ^ 64) (hfin : bits / 2 ^ 52 % 2 ^ 11 ≠ 2047)
     (hnz : bits % 2 ^ 63 ≠ 0) (hnf : ¬ FastInt bits) :
     ∀ d, f64ToDecimal (bits % 2 ^ 52) (bits / 2 ^ 52 % 2 ^ 11) (cqOfBits bits).1 (cqOfBits bits).2 = some d →
-      chk (cqOfBits bits).1 (cqOfBits bits).2 (normalize d.sig d.exp).1 (normalize d.sig d.exp).2 = true
-```
+      chk (cqOfBits bits).1 (cqOfBits bits).2 (normalize d.sig d.exp).1 (normalize d.sig d.exp).2 = true :=
+  schub_all bits hfin hnz
 
-NOT proved: that the decimal chosen by `F64ToDecimal` (Schubfach: `RoundToOdd` estimates of the interval ends
-from the 128-bit table entry, the `R_{k+1}` / `R_k` candidate tests, the closest-of-two rule) always satisfies the
-certificate.  Everything the proof would start from is in place — the table rows are the exact ceilings
-(`C07_tables` (a)), the logarithm formulas are exact (`C07_tables` (b), (c), `C07_exponents`), `RoundToOdd` is
-`⌊cp·g/2^128⌋` or one more (`Proofs.Ftoa.roundToOdd_bounds`) — but the error analysis of Giulietti's paper
-(round-to-odd preserves the comparisons with multiples of 4 / 40) has not been formalised.  Instead the statement
-is **evaluated for every input** of the differential run: the driver line prints `chk=1` iff
-`chk (cqOfBits bits) (parseDecText text) = true` on the digits denoted by the printed text (so it also covers
-the fast path and is independent of the model's internals), and `rt=1` iff the exact reference rounding
-`Spec.Rne.round` of that decimal gives back `bits`.  By `C07_checker_sound` every `chk=1` is a proof, for that
-input, of round trip + minimal length + closest.
+/-- Consequence on exact rationals: the decimal denoted by the text `F64toa` prints for a finite non-zero double
+    outside the integer fast path (`parseDecText` of the output is `normalize d.sig d.exp`, `C07_decimal_path`)
+    reads back as the same double under round-to-nearest-even, no decimal with fewer significant digits does, and
+    no decimal with the same number of digits that reads back is closer (ties: even significand). -/
+theorem C07_shortest (b : Buf) (out bits : Nat)
+    (hfin : bits / 2 ^ 52 % 2 ^ 11 ≠ 2047) (hnz : bits % 2 ^ 63 ≠ 0) (hnf : ¬ FastInt bits) :
+    ∃ o sig exp, f64toa b out bits = some o ∧
+      parseDecText (slice o.st.buf out o.ret) = some (negOf bits, sig, exp) ∧
+      RoundTrips (cqOfBits bits).1 (cqOfBits bits).2 sig exp ∧
+      MinimalDigits (cqOfBits bits).1 (cqOfBits bits).2 sig exp ∧
+      ClosestAmongMinimal (cqOfBits bits).1 (cqOfBits bits).2 sig exp := by
+  obtain ⟨o, d, h1, _, h3, _, _, _, _, _, h5, _⟩ := C07_decimal_path b out bits hfin hnz hnf
+  have hc := schub_all bits hfin hnz d h3
+  have hv := C07_validCQ bits hfin hnz
+  exact ⟨o, (normalize d.sig d.exp).1, (normalize d.sig d.exp).2, h1, h5,
+    C07_checker_sound _ _ _ _ hv hc⟩
 
-Also not proved: the link `RoundTrips c q sig exp → Spec.Rne.round false sig exp = some bits` between the
-rounding interval of this file and the executable reference rounding of `Spec/Rne.lean` (both are written from
-the IEEE-754 definition; they are compared per input by the `rt=` column).
+-- non-vacuity: 0.1, 5e-324, DBL_MAX, 2^-1022 (start of a binade) satisfy the hypotheses of `C07_schubfach`
+example : (4591870180066957722 < 2 ^ 64 ∧ 4591870180066957722 / 2 ^ 52 % 2 ^ 11 ≠ 2047 ∧
+    4591870180066957722 % 2 ^ 63 ≠ 0 ∧ ¬ FastInt 4591870180066957722) ∧
+    (1 / 2 ^ 52 % 2 ^ 11 ≠ 2047 ∧ 1 % 2 ^ 63 ≠ 0 ∧ ¬ FastInt 1) ∧
+    (9218868437227405311 / 2 ^ 52 % 2 ^ 11 ≠ 2047 ∧ 9218868437227405311 % 2 ^ 63 ≠ 0 ∧
+      ¬ FastInt 9218868437227405311) ∧
+    (2 ^ 52 / 2 ^ 52 % 2 ^ 11 ≠ 2047 ∧ 2 ^ 52 % 2 ^ 63 ≠ 0 ∧ ¬ FastInt (2 ^ 52)) := by decide +kernel
+-- the double with the smallest margin for `RoundToOdd` (q = 164, c = 5592117679628511): prints 1.3076622631878654e65
+example : cqOfBits 0x4D73DE005BD620DF = (5592117679628511, 164) ∧
+    f64ToDecimal (0x4D73DE005BD620DF % 2 ^ 52) (0x4D73DE005BD620DF / 2 ^ 52 % 2 ^ 11) 5592117679628511 164 =
+      some ⟨13076622631878654, 49⟩ := by decide +kernel
+
+/-!
+## Nothing open
+
+`C07_schubfach` (the chosen decimal satisfies the certificate) + `C07_checker_sound` (what the certificate means on exact
+rationals) + `C07_chk_reparse(_signed)` (the certificate implies that the correctly rounding reference reader `Spec.Rne.round`
+maps the printed decimal back to the same bits) cover the whole statement of C07 for the model.  The driver still prints `chk=` and
+`rt=` per input: they now serve as an independent cross-check of these theorems and of the tie between model and compiled code.
 -/
 
 end Sonic.Props.C07
